@@ -5,7 +5,7 @@
    silently; `Print Assumptions` lists the axioms it depends on (none are declared by this development). *)
 From Coq Require Import NArith List Bool String.
 From Octo Require Import Base.Bytes Crypto.Prims Lib.Framed Lib.Canon Model.Address Model.NonceGen Model.SsChunk Model.SsTcp Model.Trojan Model.Socks5 Model.Http Generated.Params Generated.Shared
-  Proofs.AddressFacts Proofs.NonceFacts Proofs.SsChunkRoundtrip Proofs.SsChunkCanon Proofs.SsTcpSafety Proofs.SsTcpRoundtrip Proofs.CodecLemmas Proofs.TrojanFacts Proofs.Socks5Facts Proofs.HttpFacts Model.Vmess Proofs.VmessSafety Proofs.VmessFacts Model.SsUdp Proofs.SsUdpFacts.
+  Proofs.AddressFacts Proofs.NonceFacts Proofs.SsChunkRoundtrip Proofs.SsChunkCanon Proofs.SsTcpSafety Proofs.SsTcpRoundtrip Proofs.CodecLemmas Proofs.TrojanFacts Proofs.Socks5Facts Proofs.HttpFacts Model.Vmess Proofs.VmessSafety Proofs.VmessFacts Model.SsUdp Proofs.SsUdpFacts Proofs.VmessRoundtrip.
 Import ListNotations.
 Set Printing Width 200.
 
@@ -90,6 +90,22 @@ Definition C03_ssudp_xchacha_client := @roundtrip_xchacha_client.
 (* 2022 XChaCha server packet *)
 Definition C03_ssudp_xchacha_server := @roundtrip_xchacha_server.
 
+(* VMess request header bytes parse back to the same header and session *)
+Definition C03_vmess_header := @header_parse_roundtrip.
+(* VMess sealed header (auth id, sealed length, nonce, sealed header) opens to the header *)
+Definition C03_vmess_sealed_header := @seal_open_header_roundtrip.
+(* VMess request end to end: the server obtains the command, the address and exactly the first payload *)
+Definition C03_vmess_request := @request_roundtrip_vmess.
+(* VMess response end to end *)
+Definition C03_vmess_response := @response_roundtrip_vmess.
+(* request and response chained *)
+Definition C03_vmess_exchange := @vmess_first_exchange.
+
+Check @C03_vmess_header.
+Check @C03_vmess_sealed_header.
+Check @C03_vmess_request.
+Check @C03_vmess_response.
+Check @C03_vmess_exchange.
 Check @C03_vmess_body_stream.
 Check @C03_vmess_body_packet.
 Check @C03_vmess_packet_limit.
@@ -146,3 +162,8 @@ Print Assumptions C03_ssudp_aes_client_eih.
 Print Assumptions C03_ssudp_aes_server.
 Print Assumptions C03_ssudp_xchacha_client.
 Print Assumptions C03_ssudp_xchacha_server.
+Print Assumptions C03_vmess_header.
+Print Assumptions C03_vmess_sealed_header.
+Print Assumptions C03_vmess_request.
+Print Assumptions C03_vmess_response.
+Print Assumptions C03_vmess_exchange.
